@@ -116,3 +116,49 @@ Proof.
   - repeat split; intros k; cbn [a_labels am_get]; destruct (N.eqb_spec k 0); destruct (N.eqb_spec k 4); try reflexivity; congruence.
   - vm_compute. eexists. split; reflexivity.
 Qed.
+
+(* ---- third sentence: "parsing then re-serializing any canonical file reproduces it byte for byte" ----
+   (review r1, C02-2/3: the statement was proved in Proofs/BinReserialize.v but not listed - hence not audited - here) *)
+From Mila Require Import Proofs.BinSerializeConforms Proofs.BinReserialize Proofs.BinCanonicalFile.
+
+(* a file written by serialize (either arithmetic profile m), parsed, serializes (either profile m') to the same bytes.
+   [wf_archive]/[fits32]: C01's domain (Properties/C01.v); no pending c-strings: the property speaks of canonical files,
+   and an archive with pending c-strings is not what its own image parses to (the pool becomes data, C01). *)
+Theorem C02_reserialize_identity : forall kf m m' a f a',
+  wf_archive a -> a_cstrs a = [] -> fits32 a ->
+  serialize_k kf m a = Ok f -> from_bytes (a_endian a) f = Ok a' -> serialize_k kf m' a' = Ok f.
+Proof. exact reserialize_identity. Qed.
+(* ... and so does every archive that answers every lookup like the parsed one (e.g. one rebuilt through the API) *)
+Theorem C02_reserialize_identity_lookups : forall kf m m' a f a' a'',
+  wf_archive a -> a_cstrs a = [] -> fits32 a ->
+  serialize_k kf m a = Ok f -> from_bytes (a_endian a) f = Ok a' ->
+  maps_are_maps a'' -> same_observations a' a'' -> serialize_k kf m' a'' = Ok f.
+Proof. exact reserialize_identity_lookups. Qed.
+(* the wording of the property: ANY canonical file - a byte string f that is the canonical image of a well-formed content
+   (given as an archive record without pending c-strings; [canonical] is the independent writer of C02_serialize_is_canonical) -
+   parses, and the parsed archive serializes to f again.  Both size hypotheses say the image is below 4 GiB
+   ([fits32]: the bound C01 uses; [canonical_size]: the exact size of the canonical image). *)
+Theorem C02_canonical_file_reserializes : forall kf a f,
+  wf_archive a -> a_cstrs a = [] -> fits32 a ->
+  canonical_size kf (a_endian a) (a_data a) (isort key_leb (a_ptrs a)) (isort key_leb (a_text a)) (isort key_leb (a_labels a)) < U32 ->
+  canonical kf (a_endian a) (a_data a) (isort key_leb (a_ptrs a)) (isort key_leb (a_text a)) (isort key_leb (a_labels a)) = Ok f ->
+  exists a', from_bytes (a_endian a) f = Ok a' /\ forall m', serialize_k kf m' a' = Ok f.
+Proof. exact canonical_file_reserializes. Qed.
+
+(* literal bytes (review r1, C02-4: both sides of C02_serialize_is_canonical share helpers, so pin them against a file written
+   out by hand): big-endian, 8 data bytes, pointer 0 -> 8, string "A" at 4, labels L,M on 0 and M on 4 (hash order: 4 first).
+   header 78 / 8 / 2 pointers / 3 labels; cell 0 = 8, cell 4 = 40 + 4 (text section starts at 8 + 2*4 + 3*8 = 40, "A" at offset 4);
+   pointer table 0, 4; label table by name then address (0,"L") (0,"M") (4,"M") with the name M stored once; text L M A. *)
+Definition ex_canonical_file : bytes :=
+  [0;0;0;78; 0;0;0;8; 0;0;0;2; 0;0;0;3; 0;0;0;0; 0;0;0;0; 0;0;0;0; 0;0;0;0;
+   0;0;0;8; 0;0;0;44;
+   0;0;0;0; 0;0;0;4;
+   0;0;0;0; 0;0;0;0;  0;0;0;0; 0;0;0;2;  0;0;0;4; 0;0;0;2;
+   76;0; 77;0; 65;0].
+Example C02_example_literal :
+  let a := {| a_data := zeros 8; a_text := [(4, [65])]; a_ptrs := [(0, 8)]; a_labels := [(4, [[77]]); (0, [[76]; [77]])];
+              a_cstrs := []; a_endian := BE |} in
+  serialize Checked a = Ok ex_canonical_file /\
+  canonical key_bytes BE (zeros 8) [(0, 8)] [(4, [65])] [(0, [[76]; [77]]); (4, [[77]])] = Ok ex_canonical_file /\
+  (a' <- from_bytes BE ex_canonical_file ;; serialize Wrapping a') = Ok ex_canonical_file.
+Proof. vm_compute. repeat split. Qed.
